@@ -11,8 +11,8 @@ update <c> <caller> k=v ... | !bad    updateSettings / updateConfig / UpdateGlob
 updateg <caller> k=v ... | !bad       minersc update_globals
 commit                                storagesc commit_settings_changes
 dump <c> | dumpg | staged             canonical dumps
-inforce <name> <local>                GlobalSettings.GetXxx(name) with node-local value `local`
-taint                                 (alias cases) the state is no longer predictable: every later answer is `tainted`
+inforce <name> L<local>               GlobalSettings.GetXxx(name) with node-local raw value `local`
+taint ...                             (alias cases) the state is no longer predictable: every later answer is `tainted`
 ```
 c ∈ miner storage faucet vesting zcn. Keys/values are %XX-escaped bytes. Map iteration order = the canonical
 (sorted) order; for a key error the answer lists *all* offending keys (the first error in iteration order is one
@@ -30,6 +30,7 @@ structure W where
   g : Globals := ⟨0, []⟩
   demeter : Bool := false
   tainted : Bool := false
+  loaded : List String := []     -- contracts (and "g") whose genesis values were given by `load`
 
 def hexVal (c : Char) : Option Nat :=
   if '0' ≤ c ∧ c ≤ '9' then some (c.toNat - 48)
@@ -131,15 +132,18 @@ def keyErrName : KeyErr → String
   | .unknown => "unknown" | .immutable => "immutable" | .unparsable => "unparsable" | .notImpl => "notimpl"
   | .unsupported => "unsupported" | .negative => "negative" | .panic => "panic"
 
-def showBad (bad : List (Str × KeyErr)) : String :=
-  "err key " ++ ",".intercalate (sortStrs (bad.map fun (k, e) => esc k ++ ":" ++ keyErrName e))
+/-- zcnsc words "unknown key" and "value does not parse" identically, so the harness cannot tell them apart:
+both are printed `rejected` for that contract. -/
+def showBad (zcn : Bool) (bad : List (Str × KeyErr)) : String :=
+  let nm (e : KeyErr) : String := if zcn && e != .negative then "rejected" else keyErrName e
+  "err key " ++ ",".intercalate (sortStrs (bad.map fun (k, e) => esc k ++ ":" ++ nm e))
 
-def showRes (r : Res) (bad : List (Str × KeyErr)) : String :=
+def showRes (r : Res) (bad : List (Str × KeyErr)) (zcn : Bool := false) : String :=
   match r with
   | .ok out => if out then "ok 1" else "ok 0"
   | .unauthorized => "err unauthorized"
   | .decode => "err decode"
-  | .key _ _ => showBad bad
+  | .key _ _ => showBad zcn bad
   | .invalid i => s!"err invalid {i}"
 
 def tableNames (ct : Contract) : List String :=
@@ -161,26 +165,38 @@ def dumpMap (tag : String) (m : SMap Str) : String :=
 
 def P := Parsers.go
 
+/-- the typed getter's view of a raw settings string (`viper`'s cast yields the zero value when it does not parse) -/
+def canonTyped (ct : CT) (raw : Str) : String :=
+  match ct with
+  | .int | .int64 | .cost => showVal (.int ((P.int64 raw).getD 0))
+  | .int32 => showVal (.int ((P.int32 raw).getD 0))
+  | .duration => showVal (.int ((P.dur raw).getD ((P.int64 raw).getD 0)))   -- viper/cast: a bare number is nanoseconds
+  | .float64 => showVal (.dec ((P.float raw).getD ⟨false, 0, 0⟩))
+  | .boolean => showVal (.bool ((P.bool raw).getD false))
+  | .coin => showVal (.int ((P.int64 raw).getD 0))
+  | .string | .strings | .key => showVal (.str raw)
+
 def step (w : W) (ws : List String) : W × String :=
   match ws with
   | ["init"] => ({}, "ok")
   | _ =>
   if w.tainted then (w, "tainted") else
   match ws with
-  | ["taint"] => ({ w with tainted := true }, "tainted")
+  | "taint" :: _ => ({ w with tainted := true }, "tainted")
   | "load" :: c :: kvs =>
     match contractOf c with
     | none => (w, "bad-op")
     | some ct => match loadCfg (getCfg w ct) kvs with
       | none => (w, "bad-op")
-      | some cfg => (setCfg w ct cfg, "ok")
+      | some cfg => ({ setCfg w ct cfg with loaded := c :: w.loaded }, "ok")
   | "loadg" :: v :: kvs =>
     match v.toInt?, parseKVs kvs with
-    | some v, some m => ({ w with g := ⟨v, m⟩ }, "ok")
+    | some v, some m => ({ w with g := ⟨v, m⟩, loaded := "g" :: w.loaded }, "ok")
     | _, _ => (w, "bad-op")
   | ["fork", "0"] => ({ w with demeter := false }, "ok")
   | ["fork", "1"] => ({ w with demeter := true }, "ok")
   | "update" :: c :: caller :: rest =>
+    if !w.loaded.contains c then (w, "not-loaded") else
     match contractOf c, unesc caller.toList, parseInput rest with
     | some ct, some caller, some input =>
       match ct with
@@ -196,9 +212,10 @@ def step (w : W) (ws : List String) : W × String :=
         let bad := match input with
           | some m => badKeys (ct.keyf P) m
           | none => []
-        (setCfg w ct c', showRes r bad)
+        (setCfg w ct c', showRes r bad (ct == .zcn))
     | _, _, _ => (w, "bad-op")
   | "updateg" :: caller :: rest =>
+    if !(w.loaded.contains "g" && w.loaded.contains "miner") then (w, "not-loaded") else
     match unesc caller.toList, parseInput rest with
     | some caller, some input =>
       let (r, g') := updateGlobals P canon caller input w.miner w.g
@@ -210,21 +227,25 @@ def step (w : W) (ws : List String) : W × String :=
       ({ w with g := g' }, showRes r bad)
     | _, _ => (w, "bad-op")
   | ["commit"] =>
+    if !w.loaded.contains "storage" then (w, "not-loaded") else
     let s : Storage := ⟨w.storage, w.staged⟩
     let (r, s') := storageCommit P (Contract.validates .storage) canon s
     ({ w with storage := s'.conf, staged := s'.staged }, showRes r (badKeys (storageKey P) w.staged))
   | ["dump", c] =>
+    if !w.loaded.contains c then (w, "not-loaded") else
     match contractOf c with
     | some ct => (w, dumpCfg ct (getCfg w ct))
     | none => (w, "bad-op")
-  | ["dumpg"] => (w, dumpMap s!"globals {w.g.version}" w.g.fields)
+  | ["dumpg"] => if !w.loaded.contains "g" then (w, "not-loaded") else (w, dumpMap s!"globals {w.g.version}" w.g.fields)
   | ["staged"] => (w, dumpMap "staged" w.staged)
   | ["inforce", name, loc] =>
-    match unesc name.toList, unesc loc.toList with
-    | some name, some loc =>
-      match findEntry ZChain.Generated.C48.globals name with
-      | some e => (w, "inforce " ++ esc (globalInForce P w.g name e.ct loc))
-      | none => (w, "inforce-unknown")
+    if !w.loaded.contains "g" then (w, "not-loaded") else
+    match unesc name.toList, loc.toList with
+    | some name, 'L' :: loc =>
+      match unesc loc, findEntry ZChain.Generated.C48.globals name with
+      | some loc, some e => (w, "inforce " ++ canonTyped e.ct (globalInForce P w.g name e.ct loc))
+      | some _, none => (w, "inforce-unknown")
+      | none, _ => (w, "bad-op")
     | _, _ => (w, "bad-op")
   | _ => (w, "bad-op")
 
